@@ -160,7 +160,9 @@ func init() {
 			What: "complete RFC 1928/1929 negotiations with case-split field lengths (1..2 methods, user/password 1..2 bytes) and symbolic bytes, no credentials configured: success only with reply 05 00", Bounds: "8 shapes, all byte values", Outside: "longer fields (H11.1 covers symbolic lengths)"},
 		HarnessDef{ID: "H11.1s-1", Spec: HarnessSpec{Name: "vH_C11_shaped_1cred", Pkg: "pkg/socks5", LoopBound: 12, LoopBounds: map[string]int{"ReadAtLeast": 2}, TimeoutS: 120, Par: 6},
 			What: "same shapes, one configured credential: success => reply 05 02 / 01 00 and the presented pair equals it", Bounds: "8 shapes, credentials <= 3 bytes", Outside: "as above"},
-		HarnessDef{ID: "H11.1s-2", Spec: HarnessSpec{Name: "vH_C11_shaped_2cred", Pkg: "pkg/socks5", LoopBound: 12, LoopBounds: map[string]int{"ReadAtLeast": 2}, TimeoutS: 120, Par: 6},
+		HarnessDef{ID: "H11.1s-2q", Spec: HarnessSpec{Name: "vH_C11_shaped_2cred_small", Pkg: "pkg/socks5", LoopBound: 12, LoopBounds: map[string]int{"ReadAtLeast": 2}, TimeoutS: 240, Par: 6},
+			What: "two configured credentials with 1-byte user and password (symbolic), complete negotiations offering 1..2 methods and presenting a 1-byte user/password: success => reply 05 02 / 01 00 and the presented user AND password equal ONE configured pair (not the user of one and the password of the other)", Bounds: "1-byte fields, all byte values", Outside: "longer fields: H11.1s-2 (thorough)"},
+		HarnessDef{ID: "H11.1s-2", Tier: "thorough", Spec: HarnessSpec{Name: "vH_C11_shaped_2cred", Pkg: "pkg/socks5", LoopBound: 12, LoopBounds: map[string]int{"ReadAtLeast": 2}, TimeoutS: 120, Par: 6},
 			What: "same shapes, two configured credentials: success => the presented user AND password equal ONE configured pair", Bounds: "8 shapes, credentials <= 3 bytes", Outside: "as above"},
 		HarnessDef{ID: "H11.1-0", Tier: "thorough", Spec: HarnessSpec{Name: "vH_C11_auth_nocred", Pkg: "pkg/socks5", LoopBound: 12, LoopBounds: map[string]int{"ReadAtLeast": 2}, TimeoutS: 120, Par: 4},
 			What:   "handleAuthentication on an arbitrary byte stream, no credentials configured: success only via method 0x00 with reply 05 00",
@@ -187,7 +189,7 @@ func init() {
 		HarnessDef{ID: "H18.1a", Spec: HarnessSpec{Name: "vH_C18_tunnel_frame", Pkg: "apis/common", LoopBound: 12, TimeoutS: 120},
 			What:   "PacketOverStreamTunnel.Write: frame = 00 | BE16(len) | data | ff, exactly one conn write of len+4 bytes; > 65535 bytes is an error and nothing is written",
 			Bounds: "every datagram length 0..70000 (symbolic), contents abstract", Outside: "-"},
-		HarnessDef{ID: "H18.1b-q", Spec: HarnessSpec{Name: "vH_C18_tunnel_roundtrip_quick", Pkg: "apis/common", LoopBound: 12, LoopBounds: map[string]int{"ReadAtLeast": 5}, TimeoutS: 240, Par: 8},
+		HarnessDef{ID: "H18.1b-q", Tier: "thorough", Spec: HarnessSpec{Name: "vH_C18_tunnel_roundtrip_quick", Pkg: "apis/common", LoopBound: 12, LoopBounds: map[string]int{"ReadAtLeast": 5}, TimeoutS: 240, Par: 8},
 			What: "two datagrams (sizes 0..2 x 0..1) written then read back through a stream delivered in ARBITRARY chunks: same boundaries, same bytes, then an error", Bounds: "sizes 0..2 x 0..1, chunk sizes arbitrary", Outside: "larger datagrams: H18.1b (thorough), H18.1a/c"},
 		HarnessDef{ID: "H18.1b", Tier: "thorough", Spec: HarnessSpec{Name: "vH_C18_tunnel_roundtrip", Pkg: "apis/common", LoopBound: 12, LoopBounds: map[string]int{"ReadAtLeast": 5}, TimeoutS: 240, Par: 6},
 			What:   "two datagrams written then read back through a stream delivered in ARBITRARY chunks: same boundaries, same bytes (symbolic contents incl. marker values), then an error (no phantom datagram)",
@@ -316,14 +318,14 @@ func init() {
 	ulLB := map[string]int{"ReadAtLeast": 2, "vTCPFrame": 4, "RunEventLoop": 2, "vH_C04_tcp_tamper": 80}
 	ulNote := "ideal AEAD at the cipher.BlockCipher level (Seal records, Open succeeds iff an identical record exists); newPadding replaced by a contract stub (any bytes, planned length <= the requested maximum); server user discovery replaced by its outcome (succeeds for the sender's credential / fails); full-size reads on the fake connection"
 	reg("C01",
-		HarnessDef{ID: "H1.1a", Spec: HarnessSpec{Name: "vH_C01_tcp_frame_data", Pkg: "pkg/protocol", LoopBound: 64, LoopBounds: ulLB, TimeoutS: 300, Par: 6, Redirects: ulR},
+		HarnessDef{ID: "H1.1a", Tier: "thorough", Spec: HarnessSpec{Name: "vH_C01_tcp_frame_data", Pkg: "pkg/protocol", LoopBound: 64, LoopBounds: ulLB, TimeoutS: 300, Par: 6, Redirects: ulR},
 			What:   "TCP framing: a client underlay's real writeOneSegment emits two data segments; the bytes are laid out as documented (nonce only on the first, metadata+tag, padding1, payload+tag, padding2, lengths as recorded in the metadata) and a server underlay's real readOneSegment returns the same two segments, consuming exactly the bytes written with nonce counters in step (also C09 H9.6, C14 H14.2-stream, C16 H16.2)",
 			Bounds: "payloads 0..2 bytes, padding lengths 0..2 (case split), two segments", Outside: ulNote},
-		HarnessDef{ID: "H1.1b", Spec: HarnessSpec{Name: "vH_C01_tcp_frame_session", Pkg: "pkg/protocol", LoopBound: 64, LoopBounds: ulLB, TimeoutS: 300, Par: 6, Redirects: ulR},
+		HarnessDef{ID: "H1.1b", Tier: "thorough", Spec: HarnessSpec{Name: "vH_C01_tcp_frame_session", Pkg: "pkg/protocol", LoopBound: 64, LoopBounds: ulLB, TimeoutS: 300, Par: 6, Redirects: ulR},
 			What: "same for session (open request) segments with piggybacked payload", Bounds: "as H1.1a", Outside: ulNote},
 	)
 	reg("C09",
-		HarnessDef{ID: "H9.6", Spec: HarnessSpec{Name: "vH_C01_tcp_frame_data", Pkg: "pkg/protocol", LoopBound: 64, LoopBounds: ulLB, TimeoutS: 300, Par: 6, Redirects: ulR},
+		HarnessDef{ID: "H9.6", Tier: "thorough", Spec: HarnessSpec{Name: "vH_C01_tcp_frame_data", Pkg: "pkg/protocol", LoopBound: 64, LoopBounds: ulLB, TimeoutS: 300, Par: 6, Redirects: ulR},
 			What: "TCP segment layout and nonce progression as documented (see C01 H1.1a)", Bounds: "as C01 H1.1a", Outside: ulNote},
 	)
 	reg("C04",
@@ -443,4 +445,30 @@ func init() {
 			What:   "real Session.input of an open-session request carrying early payload, both transports: a user over quota gets the quota status, no open-session response, a closed session, and NOTHING relayed (a Read returns no byte of the piggybacked payload); a user within its allowance is answered and its payload delivered",
 			Bounds: "one quota, payload 2 bytes", Outside: note},
 	)
+}
+
+func init() {
+	pkW := map[string]string{
+		"github.com/enfein/mieru/v3/pkg/protocol.newPadding":                  "vStubNewPaddingAnyLen",
+		"github.com/enfein/mieru/v3/pkg/protocol.buildRecommendedPaddingOpts": "vStubRecommendedOpts",
+		"github.com/enfein/mieru/v3/pkg/metrics.RegisterMetric":               "vStubRegisterMetric",
+	}
+	host := map[string]string{
+		"github.com/enfein/mieru/v3/pkg/metrics.RegisterMetric":  "vStubRegisterMetric",
+		"io.ReadFull": "vStubReadFullLen",
+		"(*github.com/enfein/mieru/v3/pkg/replay.ReplayCache).IsDuplicate": "vStubIsDuplicateAny",
+	}
+	w := HarnessDef{ID: "H1.1w", Spec: HarnessSpec{Name: "vH_C01_stream_write_len", Pkg: "pkg/protocol", LoopBound: 8, TimeoutS: 240, Par: 6, Redirects: pkW},
+		What:   "TCP framing, write side at length level: two consecutive segments (session or data, payload 0..1024 / 0..32768, every traffic pattern, every padding length) of a client StreamUnderlay through the real writeOneSegment: bytes written = [24-byte nonce, first segment only] + 48 + prefix + payload(+16) + suffix, with the prefix / suffix / payload lengths exactly as recorded in the metadata; the send cipher is derived on the first write; buffers large enough for every encryption",
+		Bounds: "two segments; contents abstract", Outside: "length-level cipher (Encrypt checks the room it is given, writes nothing); newPadding = ANY length 0..maxLen; TCP fragmentation off; content-level round trip: H1.1a/b (thorough)"}
+	r := HarnessDef{ID: "H1.1r", Spec: HarnessSpec{Name: "vH_C01_stream_read_len", Pkg: "pkg/protocol", LoopBound: 8, LoopBounds: map[string]int{"ReadAtLeast": 3}, TimeoutS: 240, Par: 8, Redirects: host},
+		What:   "TCP framing, read side: for ARBITRARY authenticated metadata (decrypt oracle) and any stream length 0..70000, a successful readOneSegment consumed exactly 48 + prefix + payload(+16) + suffix bytes and returns a payload of the named length - together with H1.1w the next segment starts where the writer put it, for every padding and payload size",
+		Bounds: "one segment of an established connection, client and server; low-entropy types excluded", Outside: "decrypt oracle; io.ReadFull length-only model; replay cache answer arbitrary"}
+	reg("C01", w, r)
+	reg("C09", HarnessDef{ID: "H9.6q", Spec: w.Spec, What: "TCP segment layout and nonce placement at length level (= C01 H1.1w): [nonce once] metadata+tag, padding1, payload+tag, padding2", Bounds: w.Bounds, Outside: w.Outside})
+	reg("C14", w)
+	reg("C18", HarnessDef{ID: "H18.3", Spec: HarnessSpec{Name: "vH_C18_udp_parse", Pkg: "pkg/socks5", LoopBound: 30, LoopBounds: map[string]int{"ReadAtLeast": 2}, TimeoutS: 120, Par: 4},
+		What:   "real parseSocks5UDPDatagram on EVERY datagram of length 0, 6, 7, 10, 11, 12, 22, 24 (IPv4 / IPv6 / domain headers, empty and non-empty payloads, malformed and truncated input): no panic; success <=> RSV/FRAG zero and a complete known address; header = the datagram's own header bytes, payload = everything after it, port and IPv4 address as in the header; and the header is a COPY of the read buffer (the relay loop keeps it per destination while reusing its buffer: replies keep their own destination's address)",
+		Bounds: "lengths as listed, all byte values", Outside: "the goroutine structure of RunUDPAssociateLoop"})
+	reg("C10", registry["C18"][len(registry["C18"])-1])
 }
